@@ -17,15 +17,16 @@ class Query:
     def __init__(s, name, harness, mode='seq', defs=None, srcs=(), T=2, K=4, unwind=8, unwindset=None, opt='O1',
                  shift_check=False, spin=None, tiers=('quick', 'thorough'), timeout=300, mem_gb=16, solver='default',
                  object_bits=None, validate=20, note='', threads_tls=None, cxxflags=(), expect_known=None,
-                 extra_cbmc=(), hook=True, depth=None):
+                 extra_cbmc=(), hook=True, depth=None, unwind_fn=None):
         s.name = name; s.harness = harness; s.mode = mode; s.defs = dict(defs or {}); s.srcs = list(srcs)
         s.T = T; s.K = K; s.unwind = unwind; s.unwindset = dict(unwindset or {}); s.opt = opt
         s.shift_check = shift_check; s.spin = dict(spin or {}); s.tiers = tiers; s.timeout = timeout
         s.mem_gb = mem_gb; s.solver = solver; s.object_bits = object_bits; s.validate = validate; s.note = note
         s.threads_tls = threads_tls; s.cxxflags = list(cxxflags); s.expect_known = expect_known
         s.extra_cbmc = list(extra_cbmc); s.hook = hook; s.depth = depth
+        s.unwind_fn = dict(unwind_fn or {})   # {regex over loop id (function.N): bound}: resolved to --unwindset via cbmc --show-loops
     def bounds(s):
-        b = {'mode': s.mode, 'unwind': s.unwind, 'unwindset': s.unwindset, 'defines': s.defs, 'ir_opt': s.opt}
+        b = {'mode': s.mode, 'unwind': s.unwind, 'unwindset': s.unwindset, 'unwind_by_function': s.unwind_fn, 'defines': s.defs, 'ir_opt': s.opt}
         if s.mode == 'coro': b.update(threads=s.T, segments_K=s.K, context_switches_max=s.K - 1, spin_cut=s.spin)
         return b
 
@@ -174,7 +175,14 @@ def cbmc_cmd(q, wd, trace=False, prop=None):
     if not trace: cmd.append('--slice-formula')
     if prop: cmd += ['--property', prop]
     uws = dict(q.unwindset)
-    if q.mode == 'coro': uws.setdefault('main.0', q.K + 1)      # the scheduler loop of the driver: K segments
+    if q.mode == 'coro': uws.setdefault('main.0', q.K + 2)      # the scheduler loop of the driver: K segments
+    if q.unwind_fn:
+        if not hasattr(q, '_loops') or q._loops[0] != wd:
+            rc, o, _ = run(['cbmc', os.path.join(wd, 'main.c'), '-I' + IR2C, '-I' + wd, '--drop-unused-functions', '--show-loops'], cwd=wd, timeout=300)
+            q._loops = (wd, re.findall(r'^Loop (\S+):', o, re.M))
+        for lid in q._loops[1]:
+            for rx, U in q.unwind_fn.items():
+                if re.search(rx, lid): uws.setdefault(lid, U)
     if uws:
         cmd += ['--unwindset', ','.join('%s:%d' % kv for kv in sorted(uws.items()))]
     if q.object_bits: cmd += ['--object-bits', str(q.object_bits)]
@@ -218,7 +226,7 @@ def split_traces(out):
         tr[parts[i].strip()] = parts[i + 1]
     return tr
 
-def run_query(q, tier, seed, scratch_root, hook_available=False, keep=False):
+def run_query(q, tier, seed, scratch_root, hook_available=False, keep=False, is_known=None):
     """returns a result dict; raises Broken"""
     t0 = time.time()
     wd = tempfile.mkdtemp(prefix=q.name + '.', dir=scratch_root)
@@ -244,6 +252,11 @@ def run_query(q, tier, seed, scratch_root, hook_available=False, keep=False):
             same, ended, samples, native_fail = validate_translation(q, eb, ec, use_hook, seed)
             R['translation_validation'] = {'runs_identical': same, 'ended': ended, 'samples': samples, 'hooked_atomics': use_hook,
                                            't_s': round(time.time() - t1, 2)}
+            known_native = []
+            if native_fail and is_known:
+                known_native = [nf for nf in native_fail if is_known(nf['desc'])]
+                native_fail = [nf for nf in native_fail if not is_known(nf['desc'])]
+                R['known_native_failures'] = sorted(set(nf['desc'] for nf in known_native))   # listed finding reproduced natively; the solver still runs
             if native_fail:
                 # the real code itself fails a harness assertion on a concrete input stream: no solver needed to call it a violation
                 R['status'] = 'counterexample'; R['counterexamples'] = []; R['properties_checked'] = 0
@@ -267,6 +280,8 @@ def run_query(q, tier, seed, scratch_root, hook_available=False, keep=False):
             R['status'] = 'timeout'; raise Broken('cbmc timeout after %ds (query %s)' % (q.timeout, q.name))
         res, stats = parse_cbmc(out)
         R['cbmc'] = stats
+        if 'ran out of memory' in out or 'VERIFICATION ERROR' in out:
+            R['status'] = 'out_of_memory'; raise Broken('cbmc/SAT solver error or out of memory (limit %s GB) (query %s): %s' % (q.mem_gb, q.name, ' | '.join(l for l in out.split('\n') if 'memory' in l or 'ERROR' in l[:30])[:300]))
         if not res:
             raise Broken('cbmc produced no verdict (rc=%s, query %s):\n%s' % (rc, q.name, out[-2500:]))
         witness = [r for r in res if 'VERIF-WITNESS' in r['desc']]
